@@ -15,7 +15,9 @@ from __future__ import annotations
 import math
 from fractions import Fraction
 
-from .vgraph import NONE, Builder, Closure, SelfObj
+from .vgraph import NONE, BoolConst, Builder, Closure, SelfObj
+
+KTRUE, KFALSE = ("kb", True), ("kb", False)
 
 # ----------------------------------------------------------------------------- polynomials
 def pconst(c) -> dict:
@@ -158,7 +160,7 @@ DEFAULTS = {
     ("jax.random.split", "num"): ("k", 2),
     ("jax.random.uniform", "minval"): ("k", 0),
     ("jax.random.uniform", "maxval"): ("k", 1),
-    ("jax.random.choice", "replace"): ("k", True),
+    ("jax.random.choice", "replace"): ("kb", True),
     ("jax.random.choice", "shape"): ("tuple",),
     ("jax.random.randint", "dtype"): None,
 }
@@ -210,6 +212,8 @@ class Normalizer:
         k = n[0]
         if k == "const":
             v = n[1]
+            if isinstance(v, BoolConst):
+                return patom(KTRUE if v.v else KFALSE)
             if isinstance(v, bool) or v is None or isinstance(v, str) or isinstance(v, bytes) or v is Ellipsis:
                 return patom(("k", v))
             if isinstance(v, (int, float)):
@@ -248,9 +252,9 @@ class Normalizer:
         if k == "ite":
             if self.ite_poly:
                 c = self.boolean(n[1])
-                if c == ("k", True):
+                if c == KTRUE:
                     return self.poly(n[2])
-                if c == ("k", False):
+                if c == KFALSE:
                     return self.poly(n[3])
                 pc = self.boolpoly(c)
                 return padd(pmul(pc, self.poly(n[2])), pmul(padd(pconst(1), pneg(pc)), self.poly(n[3])))
@@ -304,7 +308,7 @@ class Normalizer:
         if k in ("missing", "localclass", "listmut"):
             return patom(("k", repr(n[:2])))
         # already-canonical atoms may be injected by references
-        if k in ("p", "g", "k", "poly", "B", "bv"):
+        if k in ("p", "g", "k", "kb", "poly", "B", "bv"):
             return thaw(n)
         return patom(("raw", k) + tuple(self.canon(x) if isinstance(x, (tuple, Closure)) else x for x in n[1:]))
 
@@ -395,8 +399,8 @@ class Normalizer:
                             return build(("cmp", o, x[2][0], x[2][1]))
                     if short in UNFUN and UNFUN[short] == "Invert" and len(x[2]) == 1:
                         return ("not", build(x[2][0]))
-                if k == "const" and isinstance(x[1], bool):
-                    return ("lit", x[1])
+                if k == "const" and isinstance(x[1], (bool, BoolConst)):
+                    return ("lit", bool(x[1]))
             c = self.canon(x)
             if isinstance(c, tuple) and c and c[0] == "B":
                 # nested canonical Boolean: re-expand over its atoms
@@ -480,7 +484,7 @@ class Normalizer:
                     changed = True
                     break
         if nat == 0:
-            return ("k", bool(table & 1))
+            return KTRUE if table & 1 else KFALSE
         if nat == 1 and table == 0b10:
             return atoms_sorted[0]
         return ("B", tuple(atoms_sorted), table)
@@ -508,9 +512,9 @@ class Normalizer:
         ca, cb = self.canon(a), self.canon(b)
         if ca == cb:
             return ca
-        if cc == ("k", True):
+        if cc == KTRUE:
             return ca
-        if cc == ("k", False):
+        if cc == KFALSE:
             return cb
         if _key(nc) < _key(cc):
             return ("ite", nc, cb, ca)
@@ -688,6 +692,8 @@ def _st(t, d) -> str:
         return t[1]
     if k == "g" and len(t) == 2 and isinstance(t[1], str):
         return t[1].replace("jax.numpy.", "jnp.").replace("jax.random.", "jr.")
+    if k == "kb":
+        return repr(t[1])
     if k == "k" and len(t) == 2:
         if isinstance(t[1], tuple) and t[1] and t[1][0] == "frac":
             return t[1][1]
